@@ -403,13 +403,144 @@ def super_fuzz(ctx, hexe, seeds, n):
     return len(cases), mism, hist
 
 
+
+# ------------------------------------------------------------------------------------------------ in-process scripts
+def rnd_payload(rng, n):
+    """bytes the stub compressor can sometimes compress (constant runs) and sometimes not"""
+    c = rng.random()
+    if c < 0.35:
+        return bytes([rng.randrange(256)]) * n
+    if c < 0.5:
+        h = n // 2
+        return bytes([rng.randrange(256)]) * h + rng.randbytes(n - h)
+    return rng.randbytes(n)
+
+
+def gen_script(rng):
+    """one run of the real library writers / the model: (lines, skeleton_order)"""
+    L = []
+    bs = rng.choice([4096, 4096, 8192, 131072, 1048576])
+    L.append("init %d %d %d" % (bs, rng.choice([0, 7, 2 ** 32 - 1, 2 ** 32 + 5, rng.randrange(2 ** 31)]), rng.randint(1, 6)))
+    if rng.random() < 0.5:
+        L.append("opts " + rng.randbytes(rng.choice([1, 4, 8, 20, 61])).hex())
+    # data blocks: files of 1..4 blocks drawn from a small pool so that hash matches, real duplicates and
+    # same-hash-different-bytes all occur (checksum is deliberately weak)
+    pool = [rng.randbytes(rng.choice([1, 3, 8, 8, 16])) for _ in range(4)]
+    pool += [bytes(x ^ 1 if i == 0 else x for i, x in enumerate(pool[0]))]           # same weak checksum class, other bytes
+    nfiles = rng.randint(0, 7)
+    for _ in range(nfiles):
+        nb = rng.randint(1, 4)
+        extra = rng.choice([0, 0, 0, 8, 32768])                                           # DONT_DEDUPLICATE / IS_COMPRESSED
+        for j in range(nb):
+            fl = extra | (2048 if j == 0 else 0) | (4096 if j == nb - 1 else 0)
+            c = rng.random()
+            if c < 0.1:
+                d, fl = b"", fl                                                            # size 0
+            elif c < 0.2:
+                d, fl = b"\0" * 8, fl | 1024                                               # IS_SPARSE: not written
+            else:
+                d = rng.choice(pool)
+            ck = (sum(d) % 2) if rng.random() < 0.7 else (sum(d) * 2654435761) % 2 ** 32
+            L.append("blk %d %d %s" % (fl, ck, d.hex() if d else "-"))
+    mid = []
+    m = ["mnew 0 0", "mnew 1 1"]
+    for _ in range(rng.randint(0, 6)):
+        i = rng.choice([0, 0, 1])
+        n = rng.choice([1, 2, 16, 100, 8191, 8192, 8193, 16384, 20000, rng.randint(1, 9000)])
+        m.append("mapp %d %s" % (i, rnd_payload(rng, n).hex()))
+        if rng.random() < 0.15:
+            m.append("mflush %d" % i)
+    m += ["mflush 0", "mflush 1", "mwrite 1"]
+    if rng.random() < 0.2:
+        m += ["mreset 0", "mapp 0 " + rnd_payload(rng, 5).hex(), "mflush 0"]
+    mid.append(m)
+    if rng.random() < 0.7:
+        mid.append(["fragtable %d %d" % (rng.choice([0, 1, 3, 512, 513, 1100]), rng.randint(0, 1))])
+    if rng.random() < 0.6:
+        mid.append(["export %d %d" % (rng.choice([1, 2, 10, 1024, 1025]), rng.randrange(2 ** 48))])
+    if rng.random() < 0.3:
+        n = rng.choice([0, 8, 24, 8192, 8200, 16384, 20000])
+        mid.append(["table " + (rnd_payload(rng, n).hex() if n else "-")])
+    nid = rng.choice([1, 1, 2, 5, 300, 2048, 2049, 3000])
+    ids = rng.sample(range(2 ** 32), nid)
+    idt = ["idtable " + ",".join(str(x) for x in ids)]
+    c = rng.random()
+    if c < 0.3:
+        xa = ["xattr -"]
+    else:
+        npairs = rng.choice([1, 2, 3, 40, 513, 600])
+        xa = ["xattr " + ",".join("k%d:v%d" % (rng.randrange(3), i) for i in range(npairs))]
+    skeleton = rng.random() < 0.7
+    if skeleton:
+        for g in mid:
+            L += g
+        L += idt + xa
+    else:
+        groups = mid + [idt, xa]
+        rng.shuffle(groups)
+        for g in groups:
+            L += g
+    L += ["final", "pad %d" % rng.choice([1, 64, 1024, 4096, 4096, 65536]), "end"]
+    if rng.random() < 0.05:                                                                # error paths end a script
+        L = L[:1] + ["opts " + rng.randbytes(rng.choice([62, 63, 100])).hex(), "end"]
+    if rng.random() < 0.03:
+        L = ["init %d 0 1" % rng.choice([0, 1, 2048, 5000, 2097152, 4097]), "end"]
+        skeleton = False
+    return L, skeleton
+
+
+def script_corr(ctx, hscript, n):
+    """the real library writers (stub compressor, link-time wrapped pwrite/ftruncate) vs the model, line by line"""
+    scripts = [gen_script(ctx.rng) for _ in range(n)]
+    text = "\n".join("\n".join(L) for L, _ in scripts) + "\n"
+    r = vlib.sh([str(hscript), str(ctx.scratch / "script.out"), "script"], input=text, env=ctx.san_env(), timeout=3000)
+    real = r.stdout.splitlines()
+    model = ctx.driver(["c14"], text)
+    stats = {"scripts": n, "lines": 0, "mismatching_scripts": 0, "ops": 0, "truncates": 0, "shape_checked": 0, "errors_hit": 0}
+    bad = []
+    if r.returncode != 0:
+        bad.append({"what": "harness aborted rc=%d" % r.returncode, "stderr": r.stderr[-1500:]})
+    pos = 0
+    shape_in, shape_idx = [], []
+    for si, (L, skel) in enumerate(scripts):
+        a, b = real[pos:pos + len(L)], model[pos:pos + len(L)]
+        pos += len(L)
+        stats["lines"] += len(L)
+        if a != b or len(a) != len(L):
+            stats["mismatching_scripts"] += 1
+            k = next((i for i, (x, y) in enumerate(zip(a, b)) if x != y), min(len(a), len(b)))
+            if len(bad) < 5:
+                bad.append({"script": L[:k + 1] + ["end"], "line": L[k] if k < len(L) else None,
+                            "real": a[k][:300] if k < len(a) else None, "model": b[k][:300] if k < len(b) else None})
+            continue
+        if any(("rc=-" in x or "ret=-" in x) for x in a):
+            stats["errors_hit"] += 1
+            continue
+        ops = [t.split() for t in a[-1][4:].split(" ; ") if t.strip()]
+        stats["ops"] += len(ops)
+        stats["truncates"] += sum(1 for t in ops if t[0] == "T")
+        if skel:
+            shape_in += ["reset"] + [("W %s %s" % (t[1], t[2])) if t[0] == "W" else ("T %s" % t[1]) for t in ops] + ["shape"]
+            shape_idx.append(si)
+    if shape_in:
+        out = ctx.driver(["c14"], "\n".join(shape_in) + "\n")
+        shapes = [x for x in out if x.startswith("shape")]
+        stats["shape_checked"] = len(shapes)
+        for si, sl in zip(shape_idx, shapes):
+            if not sl.startswith("shape ok") and len(bad) < 5:
+                bad.append({"script": scripts[si][0], "what": "log of the real library writers in skeleton order fails shapeCheck: " + sl})
+    return stats, bad
+
+
 # ------------------------------------------------------------------------------------------------ run
 def build_all(ctx):
     tools = {"gensquashfs": ctx.build_tool("gensquashfs", sanitize=False, tag="plain"),
              "tar2sqfs": ctx.build_tool("tar2sqfs", sanitize=False, tag="plain"),
              "rdsquashfs": ctx.build_tool("rdsquashfs"), "sqfs2tar": ctx.build_tool("sqfs2tar")}
     shim = oplog.build_shim(ctx)
-    hexe = ctx.cc("h_c14", ["h_c14.c"], libs=[str(ctx.build_lib())] + vlib.CODEC_LIBS)
+    wrap = ["-Wl,--wrap=pwrite", "-Wl,--wrap=pwrite64", "-Wl,--wrap=ftruncate", "-Wl,--wrap=ftruncate64",
+            "-I%s" % (vlib.REPO / "lib" / "common" / "include")]
+    hexe = ctx.cc("h_c14", ["h_c14.c"], flags=wrap, libs=[str(ctx.build_lib())] + vlib.CODEC_LIBS)
     return tools, shim, hexe
 
 
@@ -465,6 +596,9 @@ def run(ctx):
     nf, mism, hist = super_fuzz(ctx, hexe, seeds_sb, 1500 if ctx.quick() else 20000) if seeds_sb else (0, [], {})
     for m in mism[:5]:
         ctx.violation("corr:superRead", "model superRead/idTableStage disagrees with the real functions: %s" % json.dumps(m)[:400], m, found_input=False)
+    sstats, sbad = script_corr(ctx, hexe, 250 if ctx.quick() else 4000)
+    for m in sbad:
+        ctx.violation("corr:script", "the real library writers and the model disagree on an in-process script: %s" % json.dumps(m)[:600], m, found_input=False)
     done = [r for r in results if "skip" not in r]
     skipped = [r["skip"] for r in results if "skip" in r]
     for sk in skipped:
@@ -479,7 +613,8 @@ def run(ctx):
             elif k in ("tool", "comp"):
                 feat["%s=%s" % (k, v)] = feat.get("%s=%s" % (k, v), 0) + 1
     ctx.cov.update({
-        "evaluations": sum(r["reader_runs"] + r["verdict_cmp"] for r in done) + nf,
+        "evaluations": sum(r["reader_runs"] + r["verdict_cmp"] for r in done) + nf + sstats["lines"],
+        "inprocess_scripts": sstats,
         "distinct_nontrivial": sum(1 for r in done if r["nops"] >= 8 and r.get("shape_ok")),
         "rule": "one evaluation = one real reader run or one model-vs-real verdict comparison on a materialised prefix, plus superblock-fuzz cases; "
                 "non-trivial = packer run whose log has ≥ 8 output calls and the model's shape; inputs: %d corpus + %d generated (3 forced: xz+options+export+xattr, "
@@ -490,7 +625,7 @@ def run(ctx):
         "real_kills": sum(r["kills"] for r in done), "ops_histogram": sorted(r["nops"] for r in done),
         "features": feat, "superblock_fuzz": {"cases": nf, "model_verdict_histogram": hist, "mismatches": len(mism)},
         "samples": [{"tool": r["features"].get("tool"), "nops": r["nops"], "kfinal": r["kfinal"], "size": r["features"].get("size")} for r in done[:4]],
-        "disagreements_checked": sum(len(r["viol"]) for r in results) + len(mism), "violations_per_key": per_key,
+        "disagreements_checked": sum(len(r["viol"]) for r in results) + len(mism) + len(sbad), "violations_per_key": per_key,
     })
     return ctx.finish(LEVEL, trusted_extra=[
         "harness/shim_oplog.c logs every pwrite/ftruncate on the output file; POSIX semantics of those two calls as in Sqfs.Writer.filePwrite/fileTrunc and tools/oplog.py",
